@@ -56,7 +56,8 @@ class ThreadPeer(threading.Thread):
                     self.sock.sendall(bytes.fromhex(a[1]))
                 elif a[0] == 'recuntil':
                     mark = bytes.fromhex(a[1])
-                    while bytes(self.recorded[-len(mark):]) != mark:
+                    start = len(self.recorded)
+                    while len(self.recorded) - start < len(mark) or bytes(self.recorded[-len(mark):]) != mark:
                         if not self._readsome():
                             return
                 elif a[0] == 's':
